@@ -18,7 +18,7 @@ ASSUMPTIONS = ["vlib/ref/abnf.py transcribes RFC 9535 Appendix A; vlib/ref/typec
 TECHNIQUE = "Hypothesis grammar-based generation + mutation, membership oracle = independent RFC 9535 ABNF recogniser and type checker"
 LEVEL_TEXT = ("Grammar-derived valid queries over every lexical alternative plus still-valid near-miss mutants; each "
               "must compile. The reference recogniser decides membership exactly (set-valued, memoised). Sampled.")
-LEVEL_NOTE = "Trusted: vlib/ref/abnf.py and typecheck.py (self-test + triangulation). Arguments starting with '!' or '(' excluded while finding R is open."
+LEVEL_NOTE = "Trusted: vlib/ref/abnf.py and typecheck.py (self-test + triangulation)."
 
 examine = accept.examine_accept
 
